@@ -1,11 +1,11 @@
 package rules
 
 import (
-	"sort"
-	"go/constant"
 	"fmt"
+	"go/constant"
 	"go/token"
 	"go/types"
+	"sort"
 	"strings"
 
 	"adgverif/an"
@@ -27,13 +27,22 @@ func init() {
 				"reply, and that function accepts only replies whose ID, question count, question type and (case-insensitively) " +
 				"name equal the request's.",
 			NotCovered: "the up/down state machine over all fault sequences and the timing of the backoff (run-time quantities).",
-			Rules: map[string]string{"C17-R13": "NewUpstreamPlain: the buffers for exchanges over TCP hold a whole DNS message (at least 65535 bytes: readMsg slices the buffer to the length the upstream announces), the UDP buffers at least the EDNS size the forwarder can be offered (4096)", "C17-R12": "UpstreamPlain.getBuffer and putBuffer map each network to the same buffer pool", "C17-R11": "a buffer that is both sent and received into is filled again before it is sent a second time (the retry after a failed exchange sends the query, not the remains of a partial response)", "C17-R10": "isExpectedConnErr is net.Error-or-EOF on non-nil errors; the forward metrics listener tolerates the nil response of a failed exchange", "C17-R9": "the fail-over decision classifies exchange errors with the same helper as the retry (net.Error or io.EOF)", "C17-RC": "class rules (error chains, shadowed results, character classes, crossed arguments, pool constructors, array pools, loop completeness, loop-carried buffers, replacing setters, complete clones, Grow arithmetic, pooled-buffer escape, sorted searches, fresh decode targets, per-iteration objects, whole-message copies, codec guards) over the packages this property rests on", "C17-R8": "every fmt.Errorf that reports an error value wraps it with %w (the fail-over decision classifies causes with errors.As)", "C17-R7": "upstream connection pool: Get hands out only connections that passed the idle-expiry test (expired ones are closed), Put queues or closes", "C17-R1": "ServeDNS fail-over table", "C17-R2": "who replaces the active set, under which lock and gate",
+			Rules: map[string]string{"C17-R16": "the refresh worker runs one refresh at a time in its own goroutine (shared with C13-R11): two health-check rounds never overlap, so an older round cannot overwrite the result of a newer one", "C17-R15": "cmd.splitUpstreamURL returns the network named by the URL scheme: on the successful return the network is, on the path through the scheme check, the converted u.Scheme (a tcp:// upstream is asked over TCP and not over UDP first), and NetworkAny only for an address without a scheme", "C17-R14": "the health check gives every main upstream a time budget of its own: the probes inside the loop over the upstreams run either concurrently or under a context derived inside the loop, not one after another under the round's single deadline (F54)", "C17-R13": "NewUpstreamPlain: the buffers for exchanges over TCP hold a whole DNS message (at least 65535 bytes: readMsg slices the buffer to the length the upstream announces), the UDP buffers at least the EDNS size the forwarder can be offered (4096)", "C17-R12": "UpstreamPlain.getBuffer and putBuffer map each network to the same buffer pool", "C17-R11": "a buffer that is both sent and received into is filled again before it is sent a second time (the retry after a failed exchange sends the query, not the remains of a partial response)", "C17-R10": "isExpectedConnErr is net.Error-or-EOF on non-nil errors; the forward metrics listener tolerates the nil response of a failed exchange", "C17-R9": "the fail-over decision classifies exchange errors with the same helper as the retry (net.Error or io.EOF)", "C17-RC": "class rules (error chains, shadowed results, character classes, crossed arguments, pool constructors, array pools, loop completeness, loop-carried buffers, replacing setters, complete clones, Grow arithmetic, pooled-buffer escape, sorted searches, fresh decode targets, per-iteration objects, whole-message copies, codec guards) over the packages this property rests on", "C17-R8": "every fmt.Errorf that reports an error value wraps it with %w (the fail-over decision classifies causes with errors.As)", "C17-R7": "upstream connection pool: Get hands out only connections that passed the idle-expiry test (expired ones are closed), Put queues or closes", "C17-R1": "ServeDNS fail-over table", "C17-R2": "who replaces the active set, under which lock and gate",
 				"C17-R3": "health probe state table", "C17-R5": "configuration wiring: main servers, fallback servers and health-check settings of the configuration reach the handler's fields of the same meaning",
 				"C17-R4": "reply validation tables"},
 		}})
 }
 
 func runC17(c *an.Ctx) {
+	// ---- R16: health-check rounds do not overlap (shared with C13-R11)
+	c.Floor("C17-R16", 1)
+	refreshWorkerRules(c, "C17-R16")
+	// ---- R15: the scheme of an upstream address decides its network
+	c.Floor("C17-R15", 1)
+	c17SchemeIsNetwork(c, "C17-R15")
+	// ---- R14: one silent upstream does not use up the other probes' time
+	c.Floor("C17-R14", 1)
+	c17ProbeBudgets(c, "C17-R14")
 	// ---- R13: the forwarder's buffer pools are large enough for their transport
 	c.Floor("C17-R13", 2)
 	c17BufferPools(c, "C17-R13")
@@ -1073,7 +1082,6 @@ func c17ErrClassAgreement(c *an.Ctx) {
 		"the fail-over decision uses the package's one definition of a connection failure", "the fail-over decision does not use isExpectedConnErr")
 }
 
-
 // c17ConnErrClass holds the table of the package's definition of a failed
 // connection and the nil guard of the metrics callback that runs between an
 // exchange and the fail-over decision.
@@ -1197,4 +1205,118 @@ func c17BufferPools(c *an.Ctx, rule string) {
 			c.Und(rule, "pool "+f, token.NoPos, "no store into UpstreamPlain.%s found", f)
 		}
 	}
+}
+
+// c17ProbeBudgets: Handler.healthcheck probes the main upstreams in a loop.
+// When the probes run one after another under the one context of the round, an
+// upstream that does not answer uses the whole deadline up and every upstream
+// probed after it fails at once, without a packet being sent: healthy main
+// upstreams are taken out of rotation.  Each probe call inside the loop is
+// either started with a go statement (or inside a function literal that is),
+// or gets a context that is made inside the loop.
+func c17ProbeBudgets(c *an.Ctx, rule string) {
+	k := "dnsserver/forward.(*Handler).healthcheck"
+	fn := c.Prog.Fn(k)
+	if fn == nil {
+		c.Und(rule, k, token.NoPos, "anchor not found")
+		return
+	}
+	c.Analysed(k)
+	n := 0
+	check := func(f *ssa.Function, concurrent bool) {
+		for _, call := range an.Calls(f) {
+			if !strings.HasSuffix(an.CalleeName(call), "forward.Handler).healthcheckUpstream") || len(call.Common().Args) < 2 {
+				continue
+			}
+			n++
+			_, isGo := call.(*ssa.Go)
+			inLoop := an.CanReach(call, call)
+			ctxArg := call.Common().Args[1]
+			shared := false
+			switch x := ctxArg.(type) {
+			case *ssa.Parameter:
+				shared = true
+			case *ssa.FreeVar:
+				shared = true
+			case *ssa.UnOp:
+				// a context kept in a cell that is written outside the loop only
+				if al, ok := x.X.(*ssa.Alloc); ok {
+					shared = true
+					for _, r := range *al.Referrers() {
+						if st, ok := r.(*ssa.Store); ok && an.CanReach(st, st) {
+							shared = false
+						}
+					}
+				} else if _, ok := x.X.(*ssa.FreeVar); ok {
+					shared = true
+				}
+			}
+			bad := !(isGo || concurrent) && inLoop && shared
+			c.Check(!bad, rule, fmt.Sprintf("%s: probe %d of the main upstreams has a time budget of its own", k, n), call.Pos(),
+				"the probe runs concurrently or under a context made for it",
+				"the probes of the loop run one after another under the single context of the round ("+c.Pos(call.Pos())+"): a main upstream that does not answer uses the deadline up, and the healthy upstreams after it are marked down without having been asked")
+		}
+	}
+	check(fn, false)
+	// function literals of healthcheck started with go
+	for _, call := range an.Calls(fn) {
+		if g, ok := call.(*ssa.Go); ok {
+			if lit := an.StaticCallee(g); lit != nil && lit.Parent() == fn {
+				check(lit, true)
+			}
+		}
+	}
+	if n == 0 {
+		c.Und(rule, k, fn.Pos(), "no call of healthcheckUpstream found in healthcheck")
+	}
+}
+
+// c17SchemeIsNetwork: the value cmd.splitUpstreamURL returns as the network on
+// its successful return is a phi of the default (NetworkAny, no scheme) and the
+// conversion of the parsed URL's Scheme; a function that validates the scheme
+// but returns the default for it makes every tcp:// upstream a UDP-first one.
+func c17SchemeIsNetwork(c *an.Ctx, rule string) {
+	k := "cmd.splitUpstreamURL"
+	fn := c.Prog.Fn(k)
+	key := k + " returns the scheme's network"
+	if fn == nil {
+		c.Und(rule, key, token.NoPos, "anchor not found")
+		return
+	}
+	c.Analysed(k)
+	fromScheme, successes := false, 0
+	var walk func(v ssa.Value, d int)
+	walk = func(v ssa.Value, d int) {
+		if d > 6 {
+			return
+		}
+		switch x := v.(type) {
+		case *ssa.Phi:
+			for _, e := range x.Edges {
+				walk(e, d+1)
+			}
+		case *ssa.ChangeType:
+			walk(x.X, d+1)
+		case *ssa.Convert:
+			walk(x.X, d+1)
+		case *ssa.UnOp:
+			if x.Op == token.MUL {
+				if t, f, _, ok := an.FieldOf(x.X); ok && t == "net/url.URL" && f == "Scheme" {
+					fromScheme = true
+				}
+			}
+		}
+	}
+	for _, r := range an.Returns(fn) {
+		if len(r.Results) == 3 && an.IsNilConst(r.Results[2]) {
+			successes++
+			walk(r.Results[0], 0)
+		}
+	}
+	if successes == 0 {
+		c.Und(rule, key, fn.Pos(), "no successful return found")
+		return
+	}
+	c.Check(fromScheme, rule, key, fn.Pos(), "the network of the successful return includes the converted URL scheme",
+		"no successful return of splitUpstreamURL yields the URL's scheme as the network: an upstream written as tcp://… is treated as one without a scheme (UDP first, TCP only after a truncated answer), and an upstream that answers over TCP only counts as down")
 }
